@@ -109,7 +109,9 @@ def main():
             f.write("| %s | %s | %s | %s | %s |\n" % (name, prop, org, ex, by or "-"))
         n = len(rows)
         caught = sum(1 for r in rows if r[2] == 1)
-        f.write("\n%d seeds, %d caught (exit 1 with a replayed counterexample), %d not caught or not yet run.\n" % (n, caught, n - caught))
+        f.write("\n%d seeds, %d with a recorded run of the property's whole quick check that exits 1 with a replayed counterexample; %d without such a run: "
+                "the seeds of rounds 7 and 8 (agent7, agent8) were run against the single (query, shard) expected to catch them while the final thorough sweep occupied the machine "
+                "- all but C12-agent8 are refuted there, see DESIGN.md 9.6 - and have no entry in RESULTS.json.\n" % (n, caught, n - caught))
     print("meta.json for %d seeds; MATRIX.md written" % len(rows))
 
 
